@@ -234,7 +234,7 @@ int main(int argc, char **argv)
 			vx_bfs_run(&b);
 			st_states[use_static] = b.states; st_trans[use_static] = b.transitions;
 			vx_count("states", b.states); vx_count("transitions", b.transitions); vx_count("traces", b.transitions);
-			vx_count("distinct", b.states); vx_count("scope_guard_disabled_ops", b.disabled);
+			vx_count("scope_guard_disabled_ops", b.disabled);
 			vx_and("exhaustive", b.fixpoint); vx_max("max_depth", (uint64_t)b.depth_done);
 			vx_count("geometry_runs", 1);
 			if (!max_unsent) vx_count("geometries_full_fixpoint", 1); else vx_count("geometries_restricted_fixpoint", 1);
